@@ -172,6 +172,24 @@ theorem accept_vcJsonLdDocS (sep : Char) (skip : List String) (fold : String →
   split at h; · cases h
   next hc => exact ⟨h, by simpa using hd, clean_document_decodes_exact_names sep skip fold ty tags doc hty hc⟩
 
+/-- **accepted_jsonld_reads_what_was_signed** (end to end, composing the document guard with the proof check of round 1): a JSON-LD
+    credential / presentation decoded into a struct and ACCEPTED by jsonldProof (a) carries a single proof object whose verificationMethod
+    is a DID URL of exactly the issuer, verified once with the key the resolver returns for it and an asymmetric algorithm derived from that
+    key; (b) none of its top-level members is an unsigned look-alike of a struct field; (c) no object at ANY depth holds two members that
+    encoding/json conflates. For all documents, decoded types, folds, environments. -/
+theorem accepted_jsonld_reads_what_was_signed (sep : Char) (skip : List String) (fold : String → String) (docOK : Bool) (ty : GoType)
+    (tags : List String) (doc : JMembers) (E : Env) (L : LdEnv) (po : Bool) (issuer vm : String) (didOf : String → String) (va canon : Bool)
+    (parts : Nat) (dec : Bool) (vs : List Verified) (hty : deref ty = .struct tags)
+    (hderive : ∀ k a, L.keyAlg k = some a → a ∈ Facts.C17.keyDerivedAlgs)
+    (h : vcJsonLdDocS sep skip fold docOK ty doc (vcJsonLdProof E L po issuer vm didOf va canon parts dec) = .accept vs) :
+    (po = true ∧ didOf vm = issuer ∧ ∃ k v, E.resolve vm = some k ∧ vs = [v] ∧ v.key = k ∧ L.keyAlg k = some v.alg ∧
+      v.alg ∉ symmetricOrNone ∧ L.verifiesDetached k v.alg = true) ∧
+    (∀ m ∈ namesOf doc, ∀ f, decodesInto fold (fieldNames sep skip tags) m = some f → f = m) ∧
+    (∀ ns ∈ objsVal (.obj doc), ns.Pairwise (fun a b => fold a ≠ fold b)) := by
+  obtain ⟨hrest, _, hexact, hamb⟩ := accept_vcJsonLdDocS sep skip fold docOK ty tags doc _ vs hty h
+  exact ⟨accept_vcJsonLd E L po issuer vm didOf va canon parts dec vs hderive hrest, hexact,
+         fun ns hns => (ambVal_none fold (.obj doc) hamb ns hns).2⟩
+
 /-- negation for a loop that compares exact names only (no EqualFold): a look-alike of a field passes and is decoded into it -/
 theorem exact_compare_misses_case_variant :
     ∃ (doc : JMembers) (tags : List String), structLoop ',' ["", "-"] id (namesOf doc) tags = none ∧
